@@ -431,6 +431,7 @@ class ReorgDriver(IndexDriver):
                       op.get('window', 300.0))
         finally:
             sim.crash_hook = None
+        self.crash_hits = state['hits']
         if r != 'crash':
             self.probe('crash.not_reached')
             return
@@ -594,10 +595,65 @@ class ReorgFamily(Family):
     driver = ReorgDriver
 
     def execute(self, case, chooser, trace=False, logs=False):
+        if case.get('enumerate') and chooser.replay is None:
+            return self.execute_enumeration(case, chooser)
         d = self.driver(case, chooser, trace=trace, logs=logs)
         res = d.run()
         res.hazard_keys = {'C05-backup-crash': d.hazard_keys_c05()}
         return res
+
+    def execute_enumeration(self, case, chooser):
+        """Fault enumeration inside one generated run: a reference pass counts the durable operations
+        matching the crash condition, then the same seed is re-run once per position (the prefix up to
+        the crash is identical because no choice depends on the crash)."""
+        import copy
+        from sim.kernel import Chooser
+        from sim.plan import Result
+        idx = next(i for i, o in enumerate(case['plan']) if o['op'] == 'crash_when')
+        ref_case = copy.deepcopy(case)
+        ref_case.pop('enumerate')
+        ref_case['plan'][idx]['skip'] = 10 ** 9
+        ref = self.driver(ref_case, Chooser(chooser.seed))
+        ref_res = ref.run()
+        n = getattr(ref, 'crash_hits', 0)
+        out = Result()
+        out.probes.update(ref_res.probes)
+        out.stats.update(ref_res.stats)
+        out.vt = ref_res.vt
+        out.violations.extend(ref_res.violations)
+        out.hazard_keys = {'C05-backup-crash': ref.hazard_keys_c05()}
+        positions = list(range(n)) if n <= 160 else sorted(set(int(i * n / 160) for i in range(160)))
+        tears = [None, 0.0, 0.5, 0.999]
+        sigs = []
+        for j, pos in enumerate(positions):
+            sub = copy.deepcopy(ref_case)
+            sub['plan'][idx]['skip'] = pos
+            sub['plan'][idx]['tear'] = tears[j % len(tears)]
+            d = self.driver(sub, Chooser(chooser.seed))
+            r = d.run()
+            r.hazard_keys = {'C05-backup-crash': d.hazard_keys_c05()}
+            out.probes.update(r.probes)
+            out.stats.update(r.stats)
+            out.vt += r.vt
+            out.probes['enum.positions'] += 1
+            sigs.append(r.isig)
+            if r.harness_error:
+                out.harness_error = r.harness_error
+            for v in r.violations:
+                if self.known_finding(v, r):
+                    out.probes['enum.known_finding_hits'] += 1
+                    continue
+                v.repro = (sub, list(r.choices))
+                out.violations.append(v)
+            if len(out.violations) >= 3:
+                break
+        out.probes['enum.runs'] += 1
+        out.digest = ref_res.digest
+        out.choices = ref_res.choices
+        out.nontrivial = bool(out.probes.get('crash.fired'))
+        out.isig = hash(tuple(sigs)) & 0xffffffffffff
+        out.stats['steps'] = out.stats.get('steps', 0)
+        return out
 
     def known_finding(self, v, res):
         if v.prop == 'C05' and v.clause in ('limited_history', 'raw.hist', 'raw.hist.missing'):
@@ -688,6 +744,12 @@ class CrashFwdFamily(ReorgFamily):
             plan.append(dict(op='crash_check', prop='C04'))
             plan.append(dict(op='start'))
         plan.append(dict(op='sync'))
+        if tier == 'thorough' and rng.random() < 0.5:
+            # fault enumeration: one crash operation, every position of it
+            first = next(i for i, o in enumerate(plan) if o['op'] == 'crash_when')
+            plan = plan[:first + 3] + [dict(op='sync')]
+            plan[first]['cond'] = rng.choice(['flushop', 'flushop', 'anyop'])
+            return dict(family='crashfwd', knobs=k, plan=plan, enumerate=True)
         return dict(family='crashfwd', knobs=k, plan=plan)
 
 
@@ -717,6 +779,12 @@ class CrashBackFamily(ReorgFamily):
                                  ntx=[2, 3], remine=0.5, seed=rng.getrandbits(32)))
             plan.append(dict(op='start'))
             plan.append(dict(op='sync'))
+        if tier == 'thorough' and rng.random() < 0.5:
+            first = next(i for i, o in enumerate(plan) if o['op'] == 'crash_when')
+            nxt = next((i for i, o in enumerate(plan) if o['op'] == 'crash_when' and i > first), None)
+            if nxt is not None:
+                plan = plan[:nxt - 1]
+            return dict(family='crashback', knobs=k, plan=plan, enumerate=True)
         return dict(family='crashback', knobs=k, plan=plan)
 
 
